@@ -109,6 +109,12 @@ func c01Events(r *c01Req, ops []vOp, calls []vIssueCall, foreignWrites []int64) 
 		// manage that became renew: the LTS does a second `pre` (renew has no pre-check)
 		emit(float64(ops[i].Seq)-0.5, "pre:%d", r.id)
 	}
+	if ops[i].Out == "err" {
+		// the locker refused (injected error): the request gives up without ever holding the lock —
+		// for the LTS it has left the scene while waiting (`die`), its result is a failure
+		emit(float64(ops[i].Seq), "die:%d", r.id)
+		return evs, ""
+	}
 	if ops[i].Out != "ok" {
 		return evs, "lock not acquired"
 	}
@@ -234,6 +240,12 @@ func c01Scenario(t *testing.T, o *vOut, seed int64, maxN, scIdx int) {
 	if rng.Intn(5) == 0 {
 		storeFaultAt = 1 + rng.Intn(4)
 	}
+	// the locker refuses the j-th Lock call of the scenario (storage outage): that request must
+	// fail without asking the issuer — nobody issues without holding the lock
+	lockFaultAt := 0
+	if rng.Intn(6) == 0 {
+		lockFaultAt = 1 + rng.Intn(3)
+	}
 	useFiles := rng.Intn(4) == 0
 	// leader failure by cancellation: the context of one request ends while it is inside the
 	// issuer (its release must still happen, and the others must take over)
@@ -335,6 +347,22 @@ func c01Scenario(t *testing.T, o *vOut, seed int64, maxN, scIdx int) {
 				return fmt.Errorf("verif: issuer down (call %d)", k)
 			}
 			return nil
+		}
+		if lockFaultAt > 0 && storeFaultAt == 0 {
+			var lockCalls int
+			fault = func(n int, kind, key string) error {
+				if kind != "Lock" {
+					return nil
+				}
+				dmu.Lock()
+				lockCalls++
+				k := lockCalls
+				dmu.Unlock()
+				if k == lockFaultAt {
+					return errVInjected
+				}
+				return nil
+			}
 		}
 		if storeFaultAt > 0 {
 			var stores int
@@ -538,6 +566,24 @@ func c01Scenario(t *testing.T, o *vOut, seed int64, maxN, scIdx int) {
 				if c.Begin > freshAt {
 					o.Mon("C01 issuance-after-fresh-save", map[string]any{"seed": seed, "req": c.Req, "initial": initial})
 				}
+			}
+		}
+		// (1c) whoever asks the issuer holds the lock: a successful Lock by that request precedes the
+		// call, with no Unlock of its own in between
+		for _, c := range calls {
+			holds := false
+			for _, op := range ops {
+				if op.Req != c.Req || op.Seq > c.Begin {
+					continue
+				}
+				if op.Kind == "Lock" && op.Out == "ok" {
+					holds = true
+				} else if op.Kind == "Unlock" {
+					holds = false
+				}
+			}
+			if !holds {
+				o.Mon("C01 issuer-asked-without-holding-the-lock", map[string]any{"seed": seed, "req": c.Req, "lock_fault_at": lockFaultAt})
 			}
 		}
 		// (2) every issuer call was for the canonical subject
